@@ -304,6 +304,12 @@ static void gen_block(uint64_t seed, int fn, uint64_t item, int layout, T* x, T*
                 case 3: x[i] = -std::fabs(x[i]); y[i] = (T)((int64_t)(k >> 8) % 2001 - 1000); break; // negative base, integer exponent
                 case 4: x[i] = -std::fabs(x[i]); y[i] = std::ldexp((T)(1 + (k >> 8) % 7), (int)((k >> 20) % 70)); break; // huge (even) integer exponent
                 case 5: x[i] = (T)std::fabs((double)gen_arg<T>(r, fn, 1)); y[i] = (T)((r.unit() - 0.5) * 16); break;
+                case 6: // huge ODD integer exponents (2^j - 1, the largest odd values of the format), negative and near-one bases
+                    y[i] = (T)(std::ldexp(1.0, 1 + (int)((k >> 8) % (FT<T>::P + 1))) - 1.0);
+                    if ((k >> 20) & 1)
+                        y[i] = -y[i];
+                    x[i] = ((k >> 21) & 1) ? -(T)(1.0 + (r.unit() - 0.5) * 1e-4) : -std::fabs(x[i]);
+                    break;
                 default: break;
                 }
             }
@@ -408,14 +414,47 @@ static void plan_probes(const char* prop, const std::vector<std::pair<int, doubl
         value_block<T>(S, prop, probes[i].first, x, nullptr, 64, 0, all_libs); });
 }
 
+// binary functions on the full cross product of a special-value lattice (finite values only; NaN / inf are C12's):
+// every sign / zero / magnitude combination, e.g. the quadrants and axes of atan2, pow with odd/even/huge integer and
+// half-integer exponents and negative bases, hypot of very different magnitudes
+template <class T>
+static void plan_lattice_pairs(const char* prop)
+{
+    const int mant = FT<T>::P + 1;
+    std::vector<T> lat = { (T)0.0, (T)-0.0, (T)1, (T)-1, (T)0.5, (T)-0.5, (T)2, (T)-2, (T)3, (T)-3, (T)1.5, (T)-2.5, (T)1e-3, (T)-1e-3, (T)1e3, (T)-1e3,
+                           FT<T>::MINN, -FT<T>::MINN, FT<T>::MINN * 8, FT<T>::MAXN / 8, -FT<T>::MAXN / 8, (T)0.99999, (T)1.00001, (T)-0.99999,
+                           (T)(std::ldexp(1.0, mant) - 1), (T)-(std::ldexp(1.0, mant) - 1), (T)std::ldexp(1.0, mant), (T)std::ldexp(1.0, mant + 3), (T)-std::ldexp(1.0, mant + 1),
+                           (T)(std::ldexp(1.0, mant - 1) - 0.5), (T)7, (T)-7, (T)1e-20, (T)-1e20, (T)127, (T)128, (T)-126, (T)1023, (T)-1022 };
+    const size_t n = lat.size();
+    std::vector<T> xs, ys;
+    for (size_t i = 0; i < n; ++i)
+        for (size_t j = 0; j < n; ++j)
+        {
+            xs.push_back(lat[i]);
+            ys.push_back(lat[j]);
+        }
+    while (xs.size() % 64)
+    {
+        xs.push_back((T)1);
+        ys.push_back((T)1);
+    }
+    const int fns[3] = { FN_ATAN2, FN_HYPOT, FN_POW };
+    parallel_for(3, [&](uint64_t i, Stats& S)
+                 {
+        if (selected(MATHFN[fns[i]].name, FT<T>::name()))
+            value_block<T>(S, prop, fns[i], xs.data(), ys.data(), xs.size(), 2, all_libs); });
+}
+
 static void run_C10()
 {
+    plan_lattice_pairs<float>("C10");
     plan_probes<float>("C10", { { FN_LGAMMA, -1e-30 }, { FN_LGAMMA, -7.999946117401123 }, { FN_LGAMMA, -8.9999885559082031 }, { FN_TGAMMA, -35.99998092651367 } });
     plan_f32_sweeps("C10");
     plan_generated<float>("C10", { FN_ATAN2, FN_HYPOT, FN_POW }, budget(64, 8192)); // 2.6e5 / 3.4e7 pairs per function per arch
 }
 static void run_C11()
 {
+    plan_lattice_pairs<double>("C11");
     plan_probes<double>("C11", { { FN_COS, 45.553093477052002 }, { FN_SIN, 9.42477796076938 }, { FN_TAN, -43.982297150257104 }, { FN_SINCOS, 23.56194490192345 },
                                  { FN_SINCOS, -9.42477796076938 }, { FN_TGAMMA, -171.99999999999957 }, { FN_TGAMMA, -139.08883666992188 } });
     std::vector<int> fns;
